@@ -226,6 +226,16 @@ fn apply(m: &Mutation, a: &Log, b: Option<&Log>) -> Option<(Vec<u8>, std::collec
             let f = vkit::pick_idx(*from, b.txns.len());
             let k = vkit::pick_idx(*at, a.txns.len());
             let bytes = txn_bytes(b, f);
+            // a transplanted transaction that lawfully chains to its new predecessor (the two
+            // logs share that prefix: same topology, same first operations) produces a valid
+            // log of ANOTHER run; nothing inside a log can tell it apart, so it is no mutant
+            // (records are ordered by LSN when read, so where the bytes are inserted does not
+            // decide where the transaction lands)
+            let prev = b.history[f].commit.previous_committed_transaction_digest;
+            let chains = f == 0 || a.history.iter().any(|t| t.commit.commit_digest == prev);
+            if chains {
+                return None;
+            }
             let (s, e) = (a.records[a.txns[k].0].start, a.records[a.txns[k].1 - 1].end);
             if *replace {
                 // replacing the only transaction of a log yields another complete, valid log:
@@ -265,9 +275,23 @@ fn is_prefix(got: &[WalRecoveredTransaction], log: &Log) -> bool {
     got.len() <= log.history.len() && got.iter().zip(log.history.iter()).all(|(x, y)| x == y)
 }
 
-fn judge_history(reader: &str, m: &Mutation, got: &[WalRecoveredTransaction], log: &Log, at: usize) -> Check {
+fn judge_history(reader: &str, m: &Mutation, got: &[WalRecoveredTransaction], log: &Log, at: usize, seg: &[u8]) -> Check {
     if is_prefix(got, log) {
         return Ok(());
+    }
+    // the same transaction returned twice
+    if (1..got.len()).any(|i| got[..i].iter().any(|t| t.commit.commit_digest == got[i].commit.commit_digest)) {
+        vfail!(format!("C11/{reader}/accepted-history-repeats-a-transaction"), "{m:?} (first affected byte {at} of {}): the reader returned Ok with {} transactions, one of them twice", log.seg.len(), got.len());
+    }
+    // frames that lie before the last commit marker of the damaged segment but belong to no
+    // returned transaction: the reader had the evidence of a damaged transaction in hand
+    let recs = parse_records(seg);
+    if let Some(last_commit) = recs.iter().rposition(|r| r.kind == 2) {
+        let frames_inside = recs[..last_commit].iter().filter(|r| r.kind == 1).count();
+        let frames_returned: usize = got.iter().map(|t| t.frames.len()).sum();
+        if recs.last().map(|r| r.end) == Some(seg.len()) && frames_inside > frames_returned {
+            vfail!(format!("C11/{reader}/accepted-history-with-orphaned-frames-inside"), "{m:?} (first affected byte {at} of {}): the reader returned Ok with {} transactions covering {frames_returned} frames; {frames_inside} intact frames lie before the last commit marker", log.seg.len(), got.len());
+        }
     }
     // a contiguous run of the committed history that starts later: the leading transactions
     // are gone and the reader (which is given no anchor) returns the rest
@@ -314,7 +338,7 @@ fn check_mutation(ctx: &Ctx, c: &Case11, log: &Log, second: Option<&Log>, m: &Mu
                 Err(p) => vfail!(format!("C11/bytes/panic/{nm}"), "{m:?}: {p}"),
                 Ok(Err(_)) => probe.class(format!("bytes:{nm}:typed-error")),
                 Ok(Ok(r)) => {
-                    if let Err(f) = judge_history("bytes", m, &r.report.transactions, log, at) {
+                    if let Err(f) = judge_history("bytes", m, &r.report.transactions, log, at, &seg) {
                         deferred.get_or_insert(f);
                     } else {
                         probe.class(format!("bytes:{nm}:accepted-prefix-of-{}", if r.report.transactions.len() == log.history.len() { "full-length" } else { "shorter-length" }));
@@ -333,7 +357,7 @@ fn check_mutation(ctx: &Ctx, c: &Case11, log: &Log, second: Option<&Log>, m: &Mu
             Err(p) => vfail!(format!("C11/filesystem/panic/{nm}"), "{m:?}: {p}"),
             Ok(Err(_)) => probe.class(format!("fs:{nm}:typed-error")),
             Ok(Ok(r)) => {
-                if let Err(f) = judge_history("filesystem", m, &r.transactions, log, at) {
+                if let Err(f) = judge_history("filesystem", m, &r.transactions, log, at, &seg) {
                     fs_fail = Some(f);
                 } else {
                     probe.class(format!("fs:{nm}:accepted-prefix"));
@@ -402,7 +426,7 @@ fn check11(ctx: &Ctx, c: &Case11, probe: &mut Probe) -> Check {
         evals += 1;
     }
     // exhaustive single-bit flips over small logs (byte-level reader)
-    let limit = ctx.tier.pick(1200usize, 8192);
+    let limit = ctx.tier.pick(2000usize, 8192);
     if log.seg.len() <= limit {
         for pos in 0..log.seg.len() {
             for bit in 0..8u8 {
@@ -411,7 +435,7 @@ fn check11(ctx: &Ctx, c: &Case11, probe: &mut Probe) -> Check {
                 match vkit::catch(|| recover_wal_segment_bytes(WalSegmentId::from_raw(1), &seg, RecoveryAccessMode::ReadOnly)) {
                     Err(p) => vfail!("C11/bytes/panic/bit-flip", "bit {bit} of byte {pos}: {p}"),
                     Ok(Err(_)) => {}
-                    Ok(Ok(r)) => match judge_history("bytes", &Mutation::BitFlip { pos: pos as u32, bit }, &r.report.transactions, &log, pos) {
+                    Ok(Ok(r)) => match judge_history("bytes", &Mutation::BitFlip { pos: pos as u32, bit }, &r.report.transactions, &log, pos, &seg) {
                         Err(f) if ctx.is_known(&f.sig) => probe.known(f.sig),
                         other => other?,
                     },
@@ -427,5 +451,5 @@ fn check11(ctx: &Ctx, c: &Case11, probe: &mut Probe) -> Check {
 }
 
 pub fn subs(_ctx: &Ctx) -> Vec<Box<dyn Sub>> {
-    vec![prop_sub("systematic-log-mutation", 160, 4_000, case11(), check11)]
+    vec![prop_sub("systematic-log-mutation", 1_600, 40_000, case11(), check11)]
 }
